@@ -9,7 +9,7 @@ from ..selftest import Mutant
 
 ID = "C37"
 TECHNIQUE = "CFG control-dependence of every ref write on a comparison with the expected-value parameter (K2) + result-consumption at call sites (K5) (ast)"
-FLOOR = 9
+FLOOR = 25
 TG = "breezy/git/transportgit.py"
 IR = "breezy/git/interrepo.py"
 EXPLANATION = """
